@@ -52,6 +52,25 @@ func c19(p *an.Prog, r *an.R, tier string) {
 					ok = false
 				}
 			}
+			if !ok {
+				// a helper that expects the lock: every call site in the package holds it
+				callers, allHold := 0, true
+				p.AllDecls(func(cf *types.Func, cd *an.DeclInfo) {
+					if cd.Pkg != sp || cd.Decl.Body == nil || cf == fn {
+						return
+					}
+					cg := an.NewG(info, cd.Decl.Body)
+					for _, cl := range cg.Locs(func(n ast.Node) bool { return len(an.CallsTo(info, n, false, fn)) > 0 }) {
+						callers++
+						if !lockHeldAt(cg, info, cl, muF, "Lock", "RLock") {
+							allHold = false
+						}
+					}
+				})
+				if callers > 0 && allHold {
+					ok = true
+				}
+			}
 			r.Check(ok, "C19.R1", fname+"/shards-under-mu", d.Decl.Pos(), fmt.Sprintf("%d accesses to the shard map, all under mu", len(locs)), "the shard map is accessed on a path where shardedSearcher.mu is not held: replace() and this access race")
 		}
 		// ranked only via Load/Store
@@ -288,6 +307,32 @@ func c19(p *an.Prog, r *an.R, tier string) {
 			fname := an.SSAName(f)
 			r.Fn(fname)
 			why, ok := allowedClose[fname]
+			if !ok {
+				// a helper split off an allowed function: every caller of its top-level function is allowed
+				top := f
+				for top.Parent() != nil {
+					top = top.Parent()
+				}
+				if tobj, isF := top.Object().(*types.Func); isF {
+					callers, allAllowed := 0, true
+					var via string
+					p.AllDecls(func(cf *types.Func, cd *an.DeclInfo) {
+						if cd.Pkg != sp || cd.Decl.Body == nil || cf == tobj {
+							return
+						}
+						if len(an.CallsTo(info, cd.Decl.Body, true, tobj)) > 0 {
+							callers++
+							if _, okc := allowedClose[an.FuncName(cf)]; !okc {
+								allAllowed = false
+							}
+							via = an.FuncName(cf)
+						}
+					})
+					if callers > 0 && allAllowed {
+						ok, why = true, "helper called only from "+via+" ("+allowedClose[via]+")"
+					}
+				}
+			}
 			r.Check(ok, "C19.R3", fname+"/closes-shard", in.Pos(), "allowed: "+why, "a shard ("+recvT+") is closed directly in "+fname+": searches that still hold the old shard list read unmapped memory (the close must be left to the finalizer installed in replace)")
 		})
 	}
@@ -426,6 +471,19 @@ func c19Fresh(v ssa.Value, seen map[ssa.Value]bool) bool {
 	case *ssa.Call:
 		if bi, ok := x.Call.Value.(*ssa.Builtin); ok && bi.Name() == "append" {
 			return c19Fresh(x.Call.Args[0], seen)
+		}
+		// a helper of the same package that builds the list: every value it returns is fresh
+		if callee := x.Call.StaticCallee(); callee != nil && len(callee.Blocks) > 0 && x.Parent() != nil && callee.Pkg == x.Parent().Pkg {
+			rets, all := 0, true
+			an.Instrs(callee, func(_ *ssa.BasicBlock, in ssa.Instruction) {
+				if rt, ok := in.(*ssa.Return); ok && len(rt.Results) == 1 {
+					rets++
+					if !c19Fresh(rt.Results[0], seen) {
+						all = false
+					}
+				}
+			})
+			return rets > 0 && all
 		}
 	case *ssa.UnOp:
 		if al, ok := x.X.(*ssa.Alloc); ok {
